@@ -264,7 +264,7 @@ class Ctx:
         t = time.time()
         cone = cone_of_influence(self.base + self.pc + self.axioms, cond)
         s = z3.Solver()
-        s.set("timeout", self.timeout_ms)
+        s.set("timeout", min(self.timeout_ms, 5000))
         for c in cone:
             s.add(c)
         s.add(cond)
